@@ -172,9 +172,28 @@ async def observe(ex, cfg, pj: Proj, order_ids: List[str], loan_index: Dict[str,
         o = by_id.get(oid)
         if o is not None and i < len(orders):
             orders[i]["loans"] = sorted(loan_index[l] for l in o.loan_ids if l in loan_index)
+    from basana.backtesting import errors as bterrors
+    bidask = []
+    for p in cfg["pairs"]:
+        if pj.lift[p["b"]] != 0:
+            # the half spread is truncated to the quote precision of a price per BASE coin: not invariant under lifting the base
+            bidask.append([-1, -1])
+            continue
+        try:
+            bid, ask = await ex.get_bid_ask(Pair(p["b"], p["q"]))
+            f = Decimal(cfg["scale"][p["q"]]) * cfg["pm"] / (Decimal(10) ** (pj.lift[p["b"]] - pj.lift[p["q"]]))
+            vals = []
+            for x in (bid, ask):
+                u = x * f
+                if u != u.to_integral_value():
+                    pj.offgrid.append(f"bidask:{p['b']}/{p['q']}={x}")
+                vals.append(int(u))
+            bidask.append(vals)
+        except bterrors.NoPrice:
+            bidask.append([0, 0])
     off = pj.offgrid[:]
     pj.offgrid.clear()
-    return {"bal": bal, "hold": hold, "bor": bor, "orders": orders, "loans": loans, "totalOk": tot_ok,
+    return {"bal": bal, "hold": hold, "bor": bor, "bidask": bidask, "orders": orders, "loans": loans, "totalOk": tot_ok,
             "listingOk": bool(listing_ok), "offgrid": off, "extraSyms": extra_syms}
 
 
